@@ -132,6 +132,7 @@ func phiCompat(cond ssa.Value, takenTrue bool) (*ssa.Phi, []int) {
 type PhiCase struct {
 	T        *Term
 	Preds    []*ssa.BasicBlock
+	Joins    []*ssa.BasicBlock // Joins[i] is the join block that Preds[i] enters
 	Restrict map[*ssa.BasicBlock]map[int]bool
 }
 
@@ -197,6 +198,7 @@ func (fa *FuncAnalysis) PhiCases(t *Term, restrict map[*ssa.BasicBlock]map[int]b
 		}
 		for _, c := range fa.PhiCases(fa.Term(ed), r2, depth+1) {
 			c.Preds = append([]*ssa.BasicBlock{pred}, c.Preds...)
+			c.Joins = append([]*ssa.BasicBlock{pb}, c.Joins...)
 			out = append(out, c)
 		}
 	}
@@ -617,4 +619,55 @@ func (fa *FuncAnalysis) Reaches(a, b ssa.Instruction) bool {
 		return false
 	}
 	return dfs(a.Block())
+}
+
+// RetCase is one way a function result comes about: a returned value with the branch facts that hold when it is
+// returned.  `if c { return a }; return b` and `if c { x = a } else { x = b }; return x` have the same cases.
+type RetCase struct {
+	T      *Term
+	Ret    *ssa.Return
+	Guards []Guard
+}
+
+// ReturnCases lists the cases of result idx over all returns, expanding results that are phis (single-exit style).
+func (fa *FuncAnalysis) ReturnCases(idx int) []RetCase {
+	var out []RetCase
+	for _, ret := range Returns(fa.Fn) {
+		if idx >= len(ret.Results) {
+			continue
+		}
+		t := fa.Term(ret.Results[idx])
+		base := fa.GuardsOf(ret)
+		if t.Op != "phi" {
+			out = append(out, RetCase{T: t, Ret: ret, Guards: base})
+			continue
+		}
+		for _, pc := range fa.PhiCases(t, nil, 0) {
+			gs := append([]Guard{}, base...)
+			for i, pred := range pc.Preds {
+				gs = append(gs, fa.GuardsOfBlock(pred)...)
+				if len(pred.Succs) == 2 && pred.Succs[0] != pred.Succs[1] {
+					for si, sb := range pred.Succs {
+						if sb == pc.Joins[i] {
+							if g, ok := fa.EdgeFact(pred, si); ok {
+								gs = append(gs, g)
+							}
+						}
+					}
+				}
+			}
+			out = append(out, RetCase{T: pc.T, Ret: ret, Guards: gs})
+		}
+	}
+	return out
+}
+
+// HasCaseGuard: some guard of the case satisfies pred.
+func (c RetCase) HasCaseGuard(pred func(Guard) bool) bool {
+	for _, g := range c.Guards {
+		if pred(g) {
+			return true
+		}
+	}
+	return false
 }
